@@ -645,7 +645,7 @@ Definition check_case (c : case) : bool :=
   | CaseReferral coh ref auth q res => Bool.eqb (valid_referral coh ref auth q) res
   | CaseTTLs ns ns_min ds ds_min =>
       (* the lease uses the minimum over each RRset (0 for an empty DS set) *)
-      (match ns with [] => true | x :: r => fold_left Z.min r x =? ns_min end) &&
+      (match ns with [] => true | x :: r => ns_rrset_ttl x r =? ns_min end) &&
       (rrset_min_ttl ds =? ds_min)
   | CaseEntry stored ttl cutu now rem bound =>
       let e := mk_ae 0%N stored ttl cutu [] in
